@@ -620,7 +620,10 @@ class CursorAnalysis(object):
                 elif cb is not None and va is not None:
                     r = self._learn_cmp(s, cb, va, eq)
                 elif la is not None and vb is not None and ca is None:
-                    if (eq and vb != 0) or (not eq and vb == 0):
+                    asc_ = s.assoc.get(la)
+                    if asc_ is not None and asc_[0] == 'digitval' and vb == -1 and not eq:
+                        r = self.learn(s, (asc_[1], asc_[2]), NN)
+                    elif (eq and vb != 0) or (not eq and vb == 0):
                         r = s.copy()
                         r.nz = r.nz | {la}
                 elif ca is not None and cb is not None and eq:
@@ -682,6 +685,12 @@ class CursorAnalysis(object):
                 for s_ in outs:
                     asc = s_.assoc.get(la)
                     r = s_
+                    if asc is not None and asc[0] == 'digitval':
+                        op = x.get('opcode')
+                        nonneg = (op == '<' and not truth and vb <= 0) or (op == '>=' and truth and vb >= 0) or \
+                            (op == '>' and truth and vb >= -1) or (op == '<=' and not truth and vb >= -1)
+                        if nonneg:
+                            r = self.learn(s_, (asc[1], asc[2]), NN)      # the character looked up is a digit, so not the terminator
                     if asc is not None and asc[0] == 'digit':
                         n_ = asc[3]
                         op = x.get('opcode')
@@ -741,6 +750,22 @@ class CursorAnalysis(object):
                 if kn is not None and kn != 0:
                     alt.nz = alt.nz | {d['id']}
                 return
+        # d = H(<char>) with H a file-local helper that yields a non-negative value only for a decimal digit
+        if x is not None and x.get('kind') == 'CallExpr' and callee(x) and callee(x)[0] == 'fn' and callee(x)[1].get('_qn') and \
+                len(call_args(x)) == 1 and callee(x)[1].get('name') not in ('strchr',):
+            ca = self.char_at(call_args(x)[0])
+            if ca is not None:
+                from .c15 import digit_count
+                from ..lock import is_internal
+                for tg in self.ctx.G.resolve_decl(callee(x)[1]):
+                    if is_internal(self.ctx.G.defs[tg][1]):
+                        try:
+                            worst, _ = digit_count(self.ctx, tg)
+                        except Exception:
+                            worst = None
+                        if worst is not None and worst >= 1:
+                            alt.assoc[d['id']] = ('digitval', ca[0], ca[1])
+                            return
         # p = strchr(SET, <char>)
         if x is not None and x.get('kind') == 'CallExpr' and callee(x) and callee(x)[0] == 'fn' and \
                 callee(x)[1].get('name') == 'strchr' and len(call_args(x)) == 2:
